@@ -50,7 +50,7 @@ def cases(tier, rng):
             k += 1
     for nf in nfs:
         out.append(dict(id=f"c03-s{nf}", mode="splitting", nf=nf))
-    n = 24 if tier == "quick" else 300
+    n = 24 if tier == "quick" else 1500
     for i in range(n):
         cfg = cards.rand_config(rng, ptos=(3,), sv=False)
         out.append(dict(id=f"c03-r{i}", mode="runner", kind=cards.pick(rng, cfg["kinds"]), heavy=cards.pick(rng, ["total", "light", "charm", "bottom"]),
